@@ -267,6 +267,9 @@ func check(raw json.RawMessage) fw.Result {
 
 	// ---- reference
 	f := flatten(doc, media, in.Hints, in.Forms)
+	if f.overflow {
+		return fw.Result{Verdict: fw.Inconclusive, Msg: "bad input: the import graph of the model has too many paths"}
+	}
 	memo := map[memoKey]*expectation{}
 	// second reading of declarations written after nested rules (kept in place), see Item.Trail
 	var f2 *flattener
@@ -285,12 +288,18 @@ func check(raw json.RawMessage) fw.Result {
 			describe(d, r.where)
 		}
 	}
-	for _, dd := range f.dead {
-		describe(dd.d, "DEAD: "+dd.why)
-	}
+	// a sheet may be dead on one path (non-matching or misplaced @import) and live on another:
+	// its declarations are dead only if no path brings them in
 	dead := map[int]string{}
 	for _, dd := range f.dead {
-		dead[dd.d.Val] = dd.why
+		if _, live := byVal[dd.d.Val]; !live {
+			dead[dd.d.Val] = dd.why
+		}
+	}
+	for _, dd := range f.dead {
+		if why, isDead := dead[dd.d.Val]; isDead {
+			describe(dd.d, "DEAD: "+why)
+		}
 	}
 	for _, e := range doc.elems() {
 		for _, d := range e.Style {
@@ -364,6 +373,15 @@ func check(raw json.RawMessage) fw.Result {
 					if pe != "" {
 						res.Count("contests_on_pseudo_elements", 1)
 					}
+					// would the winner be another declaration if a sheet included again (second
+					// @import of one sheet / any later inclusion in the document) contributed
+					// nothing there?  These are the observations that watch repeated inclusions.
+					if w.dupSib && needsRepeat(x, func(c cand) bool { return c.dupSib }) {
+						res.Count("winner_needs_sibling_reimport", 1)
+					}
+					if w.dup && needsRepeat(x, func(c cand) bool { return c.dup }) {
+						res.Count("winner_needs_repeated_inclusion", 1)
+					}
 				}
 				want := x.value
 				if f2 != nil {
@@ -398,6 +416,19 @@ func check(raw json.RawMessage) fw.Result {
 		}
 	}
 	res.Count("dead_declarations", int64(len(f.dead)))
+	res.Count("imports_followed", int64(f.stats.live))
+	for _, c := range []struct {
+		name string
+		n    int
+	}{
+		{"import_sibling_repeat", f.stats.siblingRepeats}, {"import_sibling_repeat_with_import_between", f.stats.siblingRepeatsGap},
+		{"import_document_repeat", f.stats.documentRepeats}, {"import_respelled_repeat", f.stats.respelled},
+		{"import_cycle_cut", f.stats.cyclesCut},
+	} {
+		if c.n > 0 {
+			res.Count(c.name+"_cases", 1)
+		}
+	}
 	res.Count("rules_flattened", int64(len(f.rules)))
 	res.Count("kind_"+in.Kind, 1)
 	res.Count("random_documents_regenerated_known_defect", int64(in.Regen))
@@ -448,6 +479,20 @@ func hasTrail(doc *Doc) bool {
 		}
 	}
 	return false
+}
+
+// needsRepeat reports whether the expected value changes when the candidates selected by drop
+// (rule instances that exist only because a sheet contributes again when it is included again) are
+// taken away.
+func needsRepeat(x *expectation, drop func(cand) bool) bool {
+	var rest []cand
+	for _, c := range x.cands {
+		if !drop(c) {
+			rest = append(rest, c)
+		}
+	}
+	w, _ := winner(rest)
+	return w < 0 || rest[w].d.Val != x.cands[x.win].d.Val
 }
 
 // classify names the class of a disagreement: which cascade step webrender got wrong.
